@@ -6,6 +6,30 @@ ROOT = os.path.dirname(os.path.dirname(os.path.abspath(__file__)))
 TECH = "explicit-state exhaustive enumeration of inputs/operation sequences on the real code vs a reference model"
 
 CHECKS = {
+    "C01": dict(
+        text="Every query (X,Y) on every labelled ADMG up to 3 nodes and every name-ordered 4-node ADMG (thorough: all 34 752 labelled "
+        "4-node ADMGs and five-node graphs up to 5 edges) is run through the real ID code; each returned estimand is evaluated "
+        "exactly (rational arithmetic) on generic witness SCMs for every value assignment and compared with P(y|do x) computed by "
+        "truncated factorisation. Exhaustive over graphs, queries and assignments within the bound; the quantifier over all SCMs "
+        "is discharged on generic witnesses (binary and ternary), which cannot raise a false alarm.",
+        note="Trusted: mc/scm.py (truncated factorisation) and mc/semantics.py (evaluator); graphs above the bound not covered.",
+        design="4/C01",
+    ),
+    "C02": dict(
+        text="Every query on every graph of the bound is run through both public ID entry points; the outcome class "
+        "(estimand / refusal / anything else) is compared with an independent identifiability oracle (Tian-Pearl closure, "
+        "cross-checked against a brute-force hedge search), and the caller's graph and query objects are snapshotted before and "
+        "after. Bounded-exhaustive over (graph, X, Y).",
+        note="Trusted: identifiability oracles in mc/graphs.py (two independent ones, cross-checked exhaustively for n<=4).",
+        design="4/C02",
+    ),
+    "C04": dict(
+        text="Every ordered pair and conditioning set on every labelled ADMG up to 4 nodes (thorough: plus five-node graphs up "
+        "to 6 edges), under all node-insertion permutations / reversed edge lists and several hash seeds, is passed to the real "
+        "are_d_separated and compared with the path definition of d-separation on the latent-expanded DAG.",
+        note="Trusted: the path-definition oracle (mc/graphs.py dsep_paths), cross-checked against Bayes-ball in selftest.",
+        design="4/C04",
+    ),
     "C14": dict(
         text="Every labelled mixed graph up to 3 nodes (ADMGs and cyclic DMGs; thorough: all 34 752 four-node ADMGs), every "
         "node subset and every operation sequence of depth 2 is executed on the real NxMixedGraph and compared with a "
